@@ -787,7 +787,7 @@ fn run_case(c: &Case, rec: &mut Rec) -> CaseResult {
 }
 
 pub fn check() -> Option<Check> {
-    let frontdoor = prop("frontdoor", 100_000, 3_000_000, case_strategy, run_case);
+    let frontdoor = prop("frontdoor", 300_000, 3_000_000, case_strategy, run_case);
     Some(Check {
         id: "C11",
         level: "exploration",
